@@ -429,7 +429,7 @@ def mk_name(style, code, taken):
 from hypothesis import strategies as st
 
 A_KINDS = ["a_value", "a_value", "a_value_lastrec", "a_value_lastrec", "a_att_value", "a_att_type", "a_att_len", "a_att_del",
-           "a_name_dim", "a_name_var", "a_name_att", "a_dimlen", "a_numrecs", "a_numrecs", "a_version"]
+           "a_name_dim", "a_name_var", "a_name_att", "a_dimlen", "a_numrecs", "a_numrecs", "a_version", "a_var_dims", "a_var_dims"]
 C_KINDS = ["c_bad_tag", "c_tag0_nelems", "c_name_pad", "c_value_pad", "c_nelems_plus", "c_begins", "c_begin_in_header", "c_bad_type",
            "c_truncated", "c_neg_dimlen", "c_dimid", "c_magic", "c_second_unlimited", "c_unlimited_pos"]
 ALIGNS = [4, 4, 8, 16, 64, 256, 512]
@@ -827,6 +827,24 @@ def apply_edit(fb, db, base, d, style):
                 used = True
                 data[vi] = grow_data(data[vi], f.var_shape(v), v.xtype, p[2] % (2 ** 31), ("cdl" if style != "wide" else "wide") if v.xtype == C.NC_CHAR else vstyle)
         info.update(used=used, desc="%s dim %d %r %d -> %d (used by a variable: %s)" % (kind, i, f.dims[i].name, L, nl, used))
+    elif kind == "a_var_dims":
+        # one variable is defined on another dimension (same dimension list in both files): of equal length when possible
+        # (same shape, other dimension) else of another length (shape changes)
+        fixed = [k for k in range(len(f.dims)) if f.dims[k].length > 0]
+        cands = [(vi, j) for vi, v in enumerate(f.vars) for j, dmid in enumerate(v.dimids) if f.dims[dmid].length > 0 and len(fixed) >= 2]
+        if not cands:
+            return None
+        vi, j = cands[p[0] % len(cands)]
+        v = f.vars[vi]
+        old = v.dimids[j]
+        others = [k for k in fixed if k != old]
+        same = [k for k in others if f.dims[k].length == f.dims[old].length]
+        pool_ = same if (same and p[1] % 3 != 0) else others
+        new = pool_[p[2] % len(pool_)]
+        v.dimids = [new if jj == j else x for jj, x in enumerate(v.dimids)]
+        data[vi] = grow_data(data[vi], f.var_shape(v), v.xtype, p[3] % (2 ** 31), ("cdl" if style != "wide" else "wide") if v.xtype == C.NC_CHAR else vstyle)
+        info.update(same_shape=f.dims[new].length == f.dims[old].length,
+                    desc="%s var %d %r dimension %d: %r -> %r (lengths %d -> %d)" % (kind, vi, v.name, j, f.dims[old].name, f.dims[new].name, f.dims[old].length, f.dims[new].length))
     elif kind == "a_numrecs":
         if not f.record_vars():
             return None
